@@ -25,15 +25,16 @@ def log(*a):
 
 
 class Lock:
-    def __init__(self, name):
+    def __init__(self, name, shared=False):
+        self.shared = shared
         os.makedirs(BUILD, exist_ok=True)
         # the Coq tree (coq/Gen, .vo files) is shared by all build dirs: its lock is global
         d = os.path.join(ROOT, "build") if name in ("coq", "coqchk") else BUILD
         self.path = os.path.join(d, name + ".lock")
 
     def __enter__(self):
-        self.f = open(self.path, "w")
-        fcntl.flock(self.f, fcntl.LOCK_EX)
+        self.f = open(self.path, "a")
+        fcntl.flock(self.f, fcntl.LOCK_SH if self.shared else fcntl.LOCK_EX)
 
     def __exit__(self, *a):
         fcntl.flock(self.f, fcntl.LOCK_UN)
@@ -121,8 +122,14 @@ def ensure_makefile():
         open(lf, "w").write(listing)
 
 
-def coq_make(targets, timeout=3000):
+def coq_make(targets, timeout=3000, clean=None):
+    # exclusive on the shared Coq tree; evaluation of cases and Print Assumptions take it shared, so a clean rebuild
+    # (thorough tier) can never pull a .vo away from under a concurrently running check
     with Lock("coq"):
+        for f in (clean or []):
+            for ext in (".vo", ".vok", ".vos", ".glob"):
+                try: os.remove(os.path.join(COQ, f[:-2] + ext))
+                except OSError: pass
         ensure_makefile()
         rc, out = run(["make", "-j16", "--no-print-directory"] + targets, cwd=COQ, timeout=timeout)
         return rc == 0, out
@@ -190,7 +197,8 @@ def assumptions(pid):
         fh.write("Require Import V.%s.Props.\n" % pid)
         for t in ths:
             fh.write('Print Assumptions %s.\n' % t)
-    rc, out = run(["coqc", "-Q", COQ, "V", "-w", "-all", f], cwd=d, timeout=600)
+    with Lock("coq", shared=True):
+        rc, out = run(["coqc", "-Q", COQ, "V", "-w", "-all", f], cwd=d, timeout=600)
     # Props.v prints its own assumptions again when loaded? (no: only at compile) -> out is ours
     res = {}
     chunks = re.split(r"(?=Closed under the global context|Axioms:|Section Variables:)", out)
@@ -207,7 +215,8 @@ RES_ENTRY = re.compile(r"\(\s*(\d+)(?:%nat)?\s*,\s*\[([^\]]*)\]\s*\)")
 
 def eval_shard(path):
     d = os.path.dirname(path)
-    rc, out = run(["coqc", "-Q", COQ, "V", "-w", "-all", os.path.basename(path)], cwd=d, timeout=3000)
+    with Lock("coq", shared=True):
+        rc, out = run(["coqc", "-Q", COQ, "V", "-w", "-all", os.path.basename(path)], cwd=d, timeout=3000)
     if rc != 0:
         return None, out
     m = re.search(r"R\s*=\s*(.*?)\s*:\s*list", out, re.S)
@@ -330,14 +339,12 @@ def main(argv):
 
     # 2 prove
     targets = [pid + "/Props.vo", pid + "/Check.vo"]
+    clean = None
     if tier == "thorough" and not replay:
-        # clean rebuild of the property's cone
-        with Lock("coq"):
-            for f in cone(pid + "/Props.v") + cone(pid + "/Check.v"):
-                for ext in (".vo", ".vok", ".vos", ".glob"):
-                    try: os.remove(os.path.join(COQ, f[:-2] + ext))
-                    except OSError: pass
-    okp, outp = coq_make([targets[0]])
+        # clean rebuild of the property's own files (shared Lib/ and Gen/ and other properties' files it requires
+        # are rebuilt by make only if out of date: deleting them would invalidate other properties' compiled files)
+        clean = [f for f in cone(pid + "/Props.v") + cone(pid + "/Check.v") if f.startswith(pid + "/")]
+    okp, outp = coq_make(targets, clean=clean)
     proof_ok = okp
     axioms = {}
     if not okp:
@@ -353,7 +360,7 @@ def main(argv):
 
     coqchk = None
     if tier == "thorough" and proof_ok and not replay and os.environ.get("VERIF_COQCHK", "1") == "1":
-        with Lock("coqchk"):
+        with Lock("coqchk"), Lock("coq", shared=True):
             rc, o = run(["coqchk", "-silent", "-o", "-Q", COQ, "V", "V.%s.Props" % pid], cwd=COQ, timeout=5400)
             coqchk = {"rc": rc, "tail": o[-1500:]}
             if rc != 0:
